@@ -22,6 +22,8 @@ pub const K_SPINNER: u8 = 1;
 pub const K_SLEEPER: u8 = 2;
 pub const K_NULLSP: u8 = 3;
 pub const K_EXITER: u8 = 4;
+/// a thread that opens and closes descriptors in a loop
+pub const K_FDCHURN: u8 = 5;
 
 pub fn pat(a: u64, seed: u64) -> u8 {
     let mut x = (a ^ seed).wrapping_mul(0x9E37_79B9_7F4A_7C15);
